@@ -21,6 +21,9 @@ claimed = {
  "C06": dict(sec="7 C06",
    text="Proof (loop-free handler, all sizes and limits) that a DATA block longer than MaxMessageBytes is never passed to Deliver and that the session continues in READY with an empty envelope.",
    note="assumed: ReadDotBytes returns the block it read; bytes.Buffer.Bytes returns the slice it was built from"),
+ "C13": dict(sec="7 C13",
+   text="Proof that every POP3 command sequence preserves I_pop (one flag per snapshot message, msgCount == number of set flags, by induction lemmas over a recursive count), that the snapshot slice is assigned only at login, that DELE clears exactly one set flag, RSET sets all, STAT's loop count equals msgCount, LIST/UIDL send exactly msgCount entry lines, that RemoveMessage is called only by QUIT in TRANSACTION state and exactly for the marked messages (ghost removal log, in order, with the message's own id), that any other end of the command loop removes nothing, and that no index/nil/type-assertion panic is reachable in handler.go.",
+   note="assumed: storage.Store / storage.Message interface contracts (getters pure), fmt.Fprint counted but content not modelled, bufio/net/tls contracts, TLS out of scope; listener not covered"),
  "C17": dict(sec="7 C17",
    text="Proof of the Go side for MAIL and RCPT: a recipient / sender is accepted only if the hook's last answer was not deny and (it was allow, or it was defer / absent and policy accepts); deny leaves envelope and state unchanged.",
    note="assumed: hook results are arbitrary (Lua semantics not modelled); Emit's loop and the Lua glue are not yet under contract"),
@@ -34,7 +37,6 @@ pending = {
  "C10": "file-store contracts not built yet; see DESIGN.md section 7",
  "C11": "ghost file system not built yet; see DESIGN.md section 7",
  "C12": "retention contracts not built yet; see DESIGN.md section 7",
- "C13": "POP3 contracts not built yet; see DESIGN.md section 7",
  "C14": "HTTP handler contracts not built yet; see DESIGN.md section 7",
  "C15": "hub contracts not built yet; see DESIGN.md section 7",
  "C16": "event-emission contracts not built yet; see DESIGN.md section 7",
